@@ -128,12 +128,13 @@ CLAIMS["C07"] = dict(
           "other group on both sides; the three forward passes, the three backward passes and the three meetup functions "
           "implement one recurrence each: every straight-line piece leaves the same max-plus normal form (penalties "
           "mapped to open/extension/terminal classes, scores to S) in every DP cell, carried local and candidate, under "
-          "each of the four border situations, and the border tests select interior/terminal prices with the same polarity."),
+          "each of the four border situations, each backward pass is the left-right mirror image of its forward pass, and the "
+          "border tests select interior/terminal prices with the same polarity."),
     note=("The optimality statement itself is numerical and is NOT decided: the recurrence comparison is relative (a slip "
-          "made identically in all three kernels is invisible), and profile row/column offsets, float rounding and "
+          "made identically in all six passes is invisible), and profile row/column offsets, float rounding and "
           "tie-breaks are not examined."),
     technique="producer/consumer exhaustiveness table, sibling cross-check of three kernels by max-plus value numbering, guard/store agreement",
-    design_ref="DESIGN.md section 3, C07 (R07a-R07f)")
+    design_ref="DESIGN.md section 3, C07 (R07a-R07g)")
 
 CLAIMS["C13"] = dict(
     text=("Decides that the kind decision is a function of the residue-letter histogram only and is biased the right way on "
